@@ -192,6 +192,10 @@ func recordArtifacts(paths []string, hashAlgorithms []string, gitignorePatterns 
 					if evalErr != nil {
 						return evalErr
 					}
+					// The symlink has been followed completely. Only a symlink
+					// that is still being followed can close a cycle, reaching
+					// it again on another way is none.
+					visitedSymlinks.Remove(path)
 					for key, value := range evalArtifacts {
 						if targetIsDir {
 							symlinkPath := filepath.Join(path, strings.TrimPrefix(key, evalSym))
